@@ -72,8 +72,10 @@ def _line_to_box(line_point, line_direction, box2origin, size):
     closest_point_box = box2origin[:3, 3] + box2origin[:3, :3].dot(
         direction_sign * point_in_box)
 
-    return (math.sqrt(sqr_dist), closest_point_line, closest_point_box,
-            line_parameter)
+    # the squared distance is accumulated from differences and can be a tiny
+    # negative number when the line touches the box
+    return (math.sqrt(max(0.0, sqr_dist)), closest_point_line,
+            closest_point_box, line_parameter)
 
 
 def _case_no_zeros(point_in_box, direction_in_box, box_half_size):
